@@ -12,6 +12,7 @@ def main():
   ap.add_argument('--only')
   a = ap.parse_args()
   sys.setrecursionlimit(20000)
+  sys.unraisablehook = lambda *a: None      # POX generators that swallow GeneratorExit complain when collected
   from . import run
   if a.replay:
     sys.exit(run.do_replay(a.replay))
